@@ -174,7 +174,18 @@ _run_c1 = run
 
 
 def run(cx):
-    from .C19 import from_byte
+    from .C19 import from_byte, to_byte
     _run_c1(cx)
-    # decoding of C1 (both encodings): tag, length, coordinate range and root selection
+    # decoding and encoding of C1 (both encodings): tag, length, coordinate range, root selection, tag parity
     from_byte(cx)
+    to_byte(cx)
+
+
+_run_xor = run
+
+
+def run(cx):
+    from .. import rules_i as _I
+    _run_xor(cx)
+    # C2 = M xor K: the byte-wise XOR helper pairs equal indices over the whole length
+    _I.xor_rule(cx, 'I-XOR', 'gm_sm2::util::xor_bytes', 'a', 'b', ('len($a)', 'len($b)'))
